@@ -430,7 +430,10 @@ func (mw *msgWriter) writePart(part *Part, charset Charset) {
 	if mw.depth > 0 {
 		mimeHeader := textproto.MIMEHeader{}
 		if part.description != "" {
-			mimeHeader.Add(string(HeaderContentDescription), part.description)
+			// encode the description like the description of a file, so that non-ASCII characters
+			// and line breaks in it cannot end up verbatim in the part header
+			mimeHeader.Add(string(HeaderContentDescription),
+				mw.encoder.Encode(mw.charset.String(), part.description))
 		}
 		mimeHeader.Add(string(HeaderContentTransferEnc), contentTransferEnc)
 		mimeHeader.Add(string(HeaderContentType), contentType)
